@@ -3,7 +3,7 @@ import FeatModel.Model.Solver.Control
 import FeatModel.Model.Solver.Krylov
 import FeatModel.Model.Solver.BiCGStab
 import FeatModel.Model.Solver.RatVec
-/-! line-protocol driver for the C07 models (convergence control; PCG / Richardson / PCR / BiCGStab sessions) -/
+/-! line-protocol driver for the C07 models (convergence control; PCG / Richardson / PCR / PMR / BiCGStab sessions) -/
 open FeatModel FeatModel.Proto FeatModel.Solver
 
 namespace FeatModel.DrvC07
@@ -109,6 +109,7 @@ def solveOp : P String := do
       | "pcg" => some (if isApply then pcgApply S c b else pcgCorrect S c x0 b)
       | "rich" => some (if isApply then richApply S c omega b else richCorrect S c omega x0 b)
       | "pcr" => some (if isApply then pcrApply S c b else pcrCorrect S c x0 b)
+      | "pmr" => some (if isApply then pmrApply S c b else pmrCorrect S c x0 b)
       | "bicgstab" => some (if isApply then bicgApply S c prev b else bicgCorrect S c prev x0 b)
       | _ => none
     match res with
